@@ -159,7 +159,9 @@ def r08_2(ctx, rid="R08.2"):
                                 ok = any(a[0] == "disc" and a[1][0] == "call" and a[1][1].endswith("Iterator>::next") and v == "None" for a, v in p.conds)
                                 why = "iterator over the children dropped before it was exhausted: the remaining subtrees are lost"
                             elif ty.startswith("std::vec::Vec<"):
-                                ok = cm.get(("call", "std::vec::Vec::is_empty", (x,))) == 1 or (any(a[0] == "bin" and a[1] == "Eq" and a[2] == ("call", "std::vec::Vec::len", (x,)) and a[3] == ("const", 1) and v == 1 for a, v in p.conds) and any(b[0] == "call" and b[1] == "std::vec::Vec::pop" and b[2][0] == x for b in before))
+                                len_x = ("call", "std::vec::Vec::len", (x,))
+                                len_is = lambda k_: cm.get(len_x) == k_ or any(a[0] == "bin" and a[1] == "Eq" and a[2] == len_x and a[3] == ("const", k_) and v == 1 for a, v in p.conds)
+                                ok = cm.get(("call", "std::vec::Vec::is_empty", (x,))) == 1 or len_is(0) or (len_is(1) and any(b[0] == "call" and b[1] == "std::vec::Vec::pop" and b[2][0] == x for b in before))
                                 why = "vector of subtrees dropped while it may be non-empty"
                             elif ty.startswith("std::option::Option<"):
                                 ok = (x[0] == "agg" and x[2] == "None") or cm.get(("call", "std::option::Option::is_some", (x,))) == 0 or (x[0] == "call" and x[1] == "std::collections::HashMap::insert") or cm.get(("disc", x, "std::option::Option")) == "None"
